@@ -57,6 +57,14 @@ def check(ck):
     r13_7(ck)
     r13_8(ck)
     r13_9(ck)
+    from . import c01
+    from ..engine_model import RunFor
+    rf = RunFor(ck)
+    ck.shared('R13.10', 'nothing is fetched from a process that was ended: '
+              'the front entry of a deleted process - with the Defer that '
+              'points at its (ended) worker - is dropped before the next '
+              'poll, whatever update it still holds',
+              lambda c: c01.r01_5(c, rf))
 
 
 def _tuple_consts(node):
@@ -763,6 +771,27 @@ def r13_8(ck):
     st = [c for c in A.calls_in(pp.node, 'start')]
     ck.require(bool(st), 'R13.8', pp, pp.node.name,
                'the worker is started at construction', None)
+    # workers may start OS processes of their own (a process that embeds an
+    # engine with parallel processes, a pool): they are not daemonic
+    for c in tgt:
+        dm = A.arg_of(c, None, 'daemon')
+        ok = dm is None or (isinstance(dm, ast.Constant) and
+                            dm.value in (False, None))
+        ck.require(ok, 'R13.8', pp, c,
+                   'the worker is not a daemonic process',
+                   'the worker is started with daemon=%s: a daemonic '
+                   'process may not have children, so a process that '
+                   'itself uses multiprocessing can no longer be run in '
+                   'parallel' % (A.unparse(dm) if dm is not None else ''), c)
+    for s2 in A.walk_no_nested(pp.node):
+        if isinstance(s2, ast.Assign) and isinstance(
+                s2.targets[0], ast.Attribute) and \
+                s2.targets[0].attr == 'daemon':
+            ok = isinstance(s2.value, ast.Constant) and not s2.value.value
+            ck.require(ok, 'R13.8', pp, s2,
+                       'the worker is not a daemonic process',
+                       'the worker is made daemonic: it may not have '
+                       'children of its own', s2)
 
 
 def r13_9(ck):
